@@ -22,9 +22,11 @@ theorem readStringBody_ctrl (fuel : Nat) (n : Nat) (hn : n < 32) (rest acc : Lis
   rw [this]
   simp only [List.cons_append, List.nil_append]
   rw [readStringBody]
-  simp only [beq_self_eq_true, if_true, h0, h1, h2]
-  congr 3
-  omega
+  have hv : ((0 * 16 + 0) * 16 + n / 16) * 16 + n % 16 = n := by omega
+  have hs : isSurrogate n = false := by
+    simp only [isSurrogate, Bool.and_eq_false_iff, decide_eq_false_iff_not]
+    left; omega
+  simp only [beq_self_eq_true, if_true, readU4, h0, h1, h2, hv, hs, Bool.not_false]
 
 /-- one printed character is read back as that character, for one unit of fuel -/
 theorem readStringBody_escapeChar (fuel : Nat) (c : Char) (rest acc : List Char) :
@@ -64,42 +66,106 @@ theorem escapeChar_length_pos (c : Char) : 0 < (escapeChar c).toList.length := b
   repeat' split
   all_goals simp
 
-/-- the printed body of a string -/
-def escBody (l : List Char) : List Char := l.flatMap fun c => (escapeChar c).toList
+/-- one character printed without HTML escaping is read back as that character -/
+theorem readStringBody_escapeCharPlain (fuel : Nat) (c : Char) (rest acc : List Char) :
+    readStringBody (fuel + 1) ((escapeCharPlain c).toList ++ rest) acc = readStringBody fuel rest (c :: acc) := by
+  unfold escapeCharPlain
+  split
+  · rename_i h; simp only [beq_iff_eq] at h; subst h; rfl
+  split
+  · rename_i h; simp only [beq_iff_eq] at h; subst h; rfl
+  split
+  · rename_i h; simp only [beq_iff_eq] at h; subst h; rfl
+  split
+  · rename_i h; simp only [beq_iff_eq] at h; subst h; rfl
+  split
+  · rename_i h; simp only [beq_iff_eq] at h; subst h; rfl
+  split
+  · rename_i h
+    have := readStringBody_ctrl fuel c.toNat h rest acc
+    rw [Char.ofNat_toNat] at this
+    exact this
+  · rename_i h1 h2 _ _ _ h3
+    simp only [beq_iff_eq] at h1 h2
+    simp [readStringBody, h2, h3]
+
+theorem escapeCharPlain_length_pos (c : Char) : 0 < (escapeCharPlain c).toList.length := by
+  unfold escapeCharPlain
+  repeat' split
+  all_goals simp
+
+/-- an escape function that the reader inverts, one character at a time -/
+structure EscOK (esc : Char → String) : Prop where
+  read : ∀ (fuel : Nat) (c : Char) (rest acc : List Char),
+    readStringBody (fuel + 1) ((esc c).toList ++ rest) acc = readStringBody fuel rest (c :: acc)
+  pos : ∀ c, 0 < (esc c).toList.length
+
+theorem escOK_html : EscOK escapeChar := ⟨readStringBody_escapeChar, escapeChar_length_pos⟩
+theorem escOK_plain : EscOK escapeCharPlain := ⟨readStringBody_escapeCharPlain, escapeCharPlain_length_pos⟩
+
+/-- the printed body of a string under an escape function -/
+def escBodyWith (esc : Char → String) (l : List Char) : List Char := l.flatMap fun c => (esc c).toList
+
+/-- the printed body of a string (`jsonString`: HTML escaping) -/
+abbrev escBody (l : List Char) : List Char := escBodyWith escapeChar l
+/-- the printed body of a key field name (`jsonStringPlain`: no HTML escaping) -/
+abbrev escBodyPlain (l : List Char) : List Char := escBodyWith escapeCharPlain l
 
 theorem jsonString_toList (s : String) : (jsonString s).toList = '"' :: (escBody s.toList ++ ['"']) := by
-  unfold jsonString escBody
+  unfold jsonString escBody escBodyWith
   simp [String.toList_append, String.toList_join, List.flatMap_map]
 
-theorem escBody_length (l : List Char) : l.length ≤ (escBody l).length := by
+theorem jsonStringPlain_toList (s : String) :
+    (jsonStringPlain s).toList = '"' :: (escBodyPlain s.toList ++ ['"']) := by
+  unfold jsonStringPlain escBodyPlain escBodyWith
+  simp [String.toList_append, String.toList_join, List.flatMap_map]
+
+theorem escBodyWith_length {esc : Char → String} (h : EscOK esc) (l : List Char) :
+    l.length ≤ (escBodyWith esc l).length := by
   induction l with
-  | nil => simp [escBody]
+  | nil => simp [escBodyWith]
   | cons c l ih =>
-    have := escapeChar_length_pos c
-    simp only [escBody, List.flatMap_cons, List.length_append, List.length_cons] at *
+    have := h.pos c
+    simp only [escBodyWith, List.flatMap_cons, List.length_append, List.length_cons] at *
     omega
 
-theorem readStringBody_escBody (l : List Char) :
+theorem escBody_length (l : List Char) : l.length ≤ (escBody l).length := escBodyWith_length escOK_html l
+
+theorem readStringBody_escBodyWith {esc : Char → String} (h : EscOK esc) (l : List Char) :
     ∀ (fuel : Nat) (rest acc : List Char), l.length < fuel →
-      readStringBody fuel (escBody l ++ '"' :: rest) acc = some (String.ofList (acc.reverse ++ l), rest) := by
+      readStringBody fuel (escBodyWith esc l ++ '"' :: rest) acc = some (String.ofList (acc.reverse ++ l), rest) := by
   induction l with
   | nil =>
-    intro fuel rest acc h
-    obtain ⟨f, rfl⟩ : ∃ f, fuel = f + 1 := ⟨fuel - 1, by simp at h; omega⟩
-    simp [escBody, readStringBody]
+    intro fuel rest acc hf
+    obtain ⟨f, rfl⟩ : ∃ f, fuel = f + 1 := ⟨fuel - 1, by simp at hf; omega⟩
+    simp [escBodyWith, readStringBody]
   | cons c l ih =>
-    intro fuel rest acc h
-    obtain ⟨f, rfl⟩ : ∃ f, fuel = f + 1 := ⟨fuel - 1, by simp at h; omega⟩
-    have e : escBody (c :: l) = (escapeChar c).toList ++ escBody l := by simp [escBody]
-    rw [e, List.append_assoc, readStringBody_escapeChar, ih f rest (c :: acc) (by simpa using h)]
+    intro fuel rest acc hf
+    obtain ⟨f, rfl⟩ : ∃ f, fuel = f + 1 := ⟨fuel - 1, by simp at hf; omega⟩
+    have e : escBodyWith esc (c :: l) = (esc c).toList ++ escBodyWith esc l := by simp [escBodyWith]
+    rw [e, List.append_assoc, h.read, ih f rest (c :: acc) (by simpa using hf)]
     simp
 
 /-- reading a printed string (after its opening quote) returns the string and the text that follows -/
+theorem readStringBody_printed {esc : Char → String} (h : EscOK esc) (s : String) (rest : List Char) (fuel : Nat)
+    (hf : s.toList.length < fuel) :
+    readStringBody fuel (escBodyWith esc s.toList ++ '"' :: rest) [] = some (s, rest) := by
+  rw [readStringBody_escBodyWith h s.toList fuel rest [] hf]
+  simp
+
 theorem readStringBody_jsonString (s : String) (rest : List Char) (fuel : Nat)
     (h : s.toList.length < fuel) :
-    readStringBody fuel (escBody s.toList ++ '"' :: rest) [] = some (s, rest) := by
-  rw [readStringBody_escBody s.toList fuel rest [] h]
-  simp
+    readStringBody fuel (escBody s.toList ++ '"' :: rest) [] = some (s, rest) :=
+  readStringBody_printed escOK_html s rest fuel h
+
+/-- reading the name of a printed member, with the fuel the readers give it -/
+theorem readStringBody_keyWith {esc : Char → String} (h : EscOK esc) (k : String) (more : List Char) :
+    readStringBody ((escBodyWith esc k.toList ++ '"' :: more).length + 1)
+      (escBodyWith esc k.toList ++ '"' :: more) [] = some (k, more) := by
+  apply readStringBody_printed h
+  have := escBodyWith_length h k.toList
+  simp only [List.length_append, List.length_cons]
+  omega
 
 end Ser
 end SMD
